@@ -120,7 +120,7 @@ def build_specmodel():
     open(stamp, "w").write(h.hexdigest())
     return lib
 
-def build_exe(variant, out, sources, extra=(), link_lib=True, std="c++17", opt="-O2", specmodel=False):
+def build_exe(variant, out, sources, extra=(), link_lib=True, std="c++17", opt="-O2", specmodel=False, nosan_c=()):
     """Harness executables: compiled with -fno-access-control against the variant's library."""
     d = parse_variant(variant)
     cc, cxx = compilers(d)
@@ -129,7 +129,7 @@ def build_exe(variant, out, sources, extra=(), link_lib=True, std="c++17", opt="
     smlib = [build_specmodel()] if specmodel else []
     h = hashlib.sha256()
     if smlib: h.update(open(os.path.join(BUILD, "specmodel", "stamp"), "rb").read())
-    for s in list(sources) + [os.path.join(VERIF, "src", "common", f) for f in sorted(os.listdir(os.path.join(VERIF, "src", "common")))]:
+    for s in list(sources) + list(nosan_c) + [os.path.join(VERIF, "src", "common", f) for f in sorted(os.listdir(os.path.join(VERIF, "src", "common")))]:
         h.update(open(s, "rb").read())
     flags = [opt, "-std=" + std, "-maes", "-fno-access-control", "-I", SRC, "-I", os.path.join(VERIF, "src"), "-DNDEBUG"] + defines(d) + san_flags(d) + list(extra)
     if d["portable"]: flags += PORTABLE_U
@@ -137,7 +137,11 @@ def build_exe(variant, out, sources, extra=(), link_lib=True, std="c++17", opt="
     stamp = out + ".stamp"
     if os.path.exists(stamp) and open(stamp).read() == key and os.path.exists(out):
         return out
-    run([cxx] + flags + list(sources) + libs + smlib + ["-o", out, "-lpthread"])
+    extra_objs = []
+    for i, cfile in enumerate(nosan_c):   # C sources that must stay uninstrumented (the scheduler)
+        o = out + ".nosan%d.o" % i
+        run([cc, "-c", "-O2", "-I", os.path.join(VERIF, "src", "common"), cfile, "-o", o]); extra_objs.append(o)
+    run([cxx] + flags + list(sources) + extra_objs + libs + smlib + ["-o", out, "-lpthread"])
     open(stamp, "w").write(key)
     return out
 
